@@ -90,6 +90,10 @@ def orthogonalize(Y, k=None, use_stab=False):
     Z = teneva.copy(Y)
     p = 0
 
+    if use_stab:
+        for i in range(d):
+            Z[i], p = teneva.core_stab(Z[i], p)
+
     for i in range(k):
         orthogonalize_left(Z, i, inplace=True)
         if use_stab:
